@@ -42,6 +42,7 @@ REQUIRED_THEOREMS = [
     "C14.trailing_bytes_ignored",
     "C14.load_error_or_original",
     "C14.load_class",
+    "C14.read_bytes_terminates_exact",
     "C14.damaged_entry_recomputes",
     "C14.old_fill_diverges",
     "C14.old_read_diverges",
